@@ -21,8 +21,8 @@ From Omega Require Import L4Steps.Mangle L4Steps.Stepper L4Steps.StepperProofs.
 From Omega Require Import L3History.Prefix L3History.PrefixProofs
   L3History.PrefixInst L3History.History L3History.HistoryProofs
   L3History.Cache L3History.CacheProofs.
-From OmegaGen Require PrefixGen.
-From OmegaGP Require PrefixBridge.
+From OmegaGen Require PrefixGen PrefixRecGen.
+From OmegaGP Require PrefixBridge PrefixRecBridge.
 Import ListNotations.
 Open Scope string_scope.
 
@@ -123,6 +123,58 @@ Proof.
   rewrite (C17_iterative_model_is_translated_code fuel toks ptoks stale R Hf).
   rewrite <- (iter_spec D dtrue dfalse var node ap1 ap2 toks v).
   destruct (iter_add_expr D dtrue dfalse var node ap1 ap2 toks) as [w|]; simpl.
+  - split; intros H; [injection H as ->; reflexivity|injection H as ->; reflexivity].
+  - split; discriminate.
+Qed.
+
+(* ---- tie T: the recursive translator is the TRANSLATED code --------------
+   gen/PrefixRecGen.v is regenerated from omega/symbolic/bdd.py on every run
+   (Parser.parse / _recurse, the node classes that `Parser(nodes=BDDNodes())`
+   builds and their `flatten` methods with the keyword / **kw call protocol,
+   add_expr); GenProofs/PrefixRecBridge.v proves that the translated
+   `add_expr` computes what the model rec_add_expr computes, on every token
+   list, `@` included.  [rp] is the abstract operation that stands for the
+   block ending in `bdd.rename` (the back ends have no `rename`: it fails). *)
+Variable rp : list D -> Z -> D -> option D.
+Hypothesis rp_none : forall m n u, rp m n u = None.
+
+Theorem C17_recursive_model_is_translated_code : forall fuel toks ptoks stale,
+  PrefixBridge.rel toks ptoks -> (fuel > List.length toks)%nat ->
+  PrefixRecGen.rc_add_expr D dtrue dfalse var node ap1 ap2 rp fuel ptoks stale =
+  option_map (fun v => (v, []))
+    (rec_add_expr D dtrue dfalse var node ap1 ap2 ren toks).
+Proof.
+  apply (PrefixRecBridge.rec_code_eq_model D dtrue dfalse var node ap1 ap2 ren rp).
+  intros m n u. rewrite rp_none, ren_none. reflexivity.
+Qed.
+
+(* parsers_agree for the two TRANSLATED translators: the code of bdd.py and
+   the code of bdd_iterative.py return the same node or both reject, on
+   every token list without `@` *)
+Theorem C17_translated_parsers_agree : forall fuel1 fuel2 toks ptoks stale1 stale2,
+  no_at toks -> PrefixBridge.rel toks ptoks ->
+  (fuel1 > List.length toks)%nat -> (fuel2 >= 3 * List.length toks + 2)%nat ->
+  PrefixGen.it_add_expr D dtrue dfalse var node ap1 ap2 fuel2 ptoks stale2 =
+  option_map (fun '(v, r) => (PrefixGen.IVal D v, r))
+    (PrefixRecGen.rc_add_expr D dtrue dfalse var node ap1 ap2 rp fuel1 ptoks stale1).
+Proof.
+  intros fuel1 fuel2 toks ptoks stale1 stale2 NA R H1 H2.
+  rewrite (C17_recursive_model_is_translated_code fuel1 toks ptoks stale1 R H1).
+  rewrite (C17_translated_iterative_agrees_with_recursive fuel2 toks ptoks stale2 NA R H2).
+  destruct (rec_add_expr D dtrue dfalse var node ap1 ap2 ren toks); reflexivity.
+Qed.
+
+(* translators_spec for the translated recursive code *)
+Theorem C17_translated_recursive_spec : forall fuel toks ptoks stale v,
+  no_at toks -> PrefixBridge.rel toks ptoks -> (fuel > List.length toks)%nat ->
+  (PrefixRecGen.rc_add_expr D dtrue dfalse var node ap1 ap2 rp fuel ptoks stale
+     = Some (v, [])
+   <-> E D dtrue dfalse var node ap1 ap2 None toks v []).
+Proof.
+  intros fuel toks ptoks stale v NA R Hf.
+  rewrite (C17_recursive_model_is_translated_code fuel toks ptoks stale R Hf).
+  rewrite <- (rec_spec D dtrue dfalse var node ap1 ap2 ren ren_none ap2_rename_none toks v NA).
+  destruct (rec_add_expr D dtrue dfalse var node ap1 ap2 ren toks) as [w|]; simpl.
   - split; intros H; [injection H as ->; reflexivity|injection H as ->; reflexivity].
   - split; discriminate.
 Qed.
@@ -336,13 +388,19 @@ Example C17_translated_instance :
   | Some (PrefixGen.IVal _ d, []) => map d (all_asg 2) = [true; false; true; true]
   | _ => False
   end /\
+  match PrefixRecGen.rc_add_expr bfun itrue ifalse (ivar ["x"; "y"]) inode iap1
+          (iap2 ["x"; "y"]) (fun _ _ _ => None) 13 ptoks [PrefixGen.mkTok "NOT" "!"] with
+  | Some (d, []) => map d (all_asg 2) = [true; false; true; true]
+  | _ => False
+  end /\
   PrefixGen.lexer_table =
   [("AT", "@"); ("NUMBER", "[-]*\d+"); ("NAME", "[A-Za-z_][A-Za-z0-9_']*");
    ("FORALL", "\\A"); ("EXISTS", "\\E"); ("RENAME", "\\S"); ("DIV", "/");
    ("NOT", "!"); ("AND", "\&"); ("OR", "\|"); ("XOR", "\^");
    ("DOLLAR", "\$"); ("QUESTION", "\?")].
 Proof.
-  cbv zeta. split; [|split; [reflexivity|split; [reflexivity|split; [reflexivity|]]]].
+  cbv zeta.
+  split; [|split; [reflexivity|split; [reflexivity|split; [reflexivity|split; [reflexivity|]]]]].
   - repeat constructor; simpl; eauto.
   - exact PrefixBridge.lexer_table_ok.
 Qed.
@@ -354,6 +412,9 @@ Print Assumptions C17_translated_iterative_agrees_with_recursive.
 Print Assumptions C17_translated_iterative_spec.
 Print Assumptions C17_translated_backend_independent.
 Print Assumptions C17_translated_instance.
+Print Assumptions C17_recursive_model_is_translated_code.
+Print Assumptions C17_translated_parsers_agree.
+Print Assumptions C17_translated_recursive_spec.
 Print Assumptions C17_backend_independent_given_contract.
 Print Assumptions C17_translators_spec.
 Print Assumptions C17_parsers_agree_instance.
